@@ -21,6 +21,11 @@
 //! `System`).  Freed scoped blocks are poisoned and parked in a bounded
 //! quarantine; the poison is re-checked when they leave it (write after free).
 //! Blocks of a scope that are still live when the scope ends are leaks.
+//!
+//! Every other scope (odd ids) is served by a guard-page path instead (mmap, block placed
+//! against a PROT_NONE page; mappings are pooled by size): there an out-of-bounds *read* past
+//! the end of a block faults as well, which the crash guard of the C11/C12 runner
+//! turns into a violation with the running case.
 
 use std::alloc::{GlobalAlloc, Layout, System};
 use std::cell::{Cell, UnsafeCell};
@@ -49,6 +54,22 @@ static GLOBAL_FLAGS: AtomicU32 = AtomicU32::new(0);
 
 thread_local! {
     static SCOPE: Cell<u64> = const { Cell::new(0) };
+    /// 0: guard-page path for scopes with an odd id; 1: never; 2: always (self-tests)
+    static GUARD_MODE: Cell<u8> = const { Cell::new(0) };
+}
+
+/// Force the allocation scheme of scopes on this thread (0 = by scope id, 1 = red zones, 2 = guard pages).
+pub fn set_guard_mode(m: u8) {
+    let _ = GUARD_MODE.try_with(|c| c.set(m));
+}
+
+#[inline]
+fn use_guard(scope: u64) -> bool {
+    match GUARD_MODE.try_with(|c| c.get()).unwrap_or(1) {
+        1 => false,
+        2 => scope != 0,
+        _ => scope & 1 == 1,
+    }
 }
 
 // ---------------------------------------------------------------------------
@@ -129,6 +150,73 @@ struct State {
     table: [Shard; SHARDS],
     quar: [QShard; NSLOT],
     slots: [ScopeSlot; NSLOT],
+    /// recycled guard-page mappings, by number of accessible pages (1..=POOL_CLASSES)
+    pools: [Pool; POOL_CLASSES],
+}
+
+const POOL_CLASSES: usize = 8;
+const POOL_LEN: usize = 2048;
+
+#[repr(C)]
+struct Pool {
+    lock: AtomicBool,
+    n: UnsafeCell<usize>,
+    bases: UnsafeCell<[usize; POOL_LEN]>,
+}
+
+impl State {
+    /// A mapping of `data` accessible bytes followed by one inaccessible page.
+    unsafe fn guard_map(&self, data: usize) -> *mut u8 {
+        let class = data / PAGE;
+        if (1..=POOL_CLASSES).contains(&class) {
+            let p = &self.pools[class - 1];
+            lock(&p.lock);
+            let n = &mut *p.n.get();
+            let got = if *n > 0 {
+                *n -= 1;
+                (*p.bases.get())[*n]
+            } else {
+                0
+            };
+            unlock(&p.lock);
+            if got != 0 {
+                return got as *mut u8;
+            }
+        }
+        let base = libc::mmap(
+            std::ptr::null_mut(),
+            data + PAGE,
+            libc::PROT_READ | libc::PROT_WRITE,
+            libc::MAP_PRIVATE | libc::MAP_ANONYMOUS,
+            -1,
+            0,
+        );
+        if base == libc::MAP_FAILED {
+            return std::ptr::null_mut();
+        }
+        let base = base as *mut u8;
+        libc::mprotect(base.add(data) as *mut libc::c_void, PAGE, libc::PROT_NONE);
+        base
+    }
+
+    unsafe fn guard_unmap(&self, base: *mut u8, data: usize) {
+        let class = data / PAGE;
+        if (1..=POOL_CLASSES).contains(&class) {
+            let p = &self.pools[class - 1];
+            lock(&p.lock);
+            let n = &mut *p.n.get();
+            let kept = *n < POOL_LEN;
+            if kept {
+                (*p.bases.get())[*n] = base as usize;
+                *n += 1;
+            }
+            unlock(&p.lock);
+            if kept {
+                return;
+            }
+        }
+        libc::munmap(base as *mut libc::c_void, data + PAGE);
+    }
 }
 
 unsafe impl Sync for State {}
@@ -140,6 +228,29 @@ fn state() -> Option<&'static State> {
     } else {
         Some(unsafe { &*p })
     }
+}
+
+/// Marks (in `Ent::align` / `QEnt::align`) a block served by the guard-page path: the user block
+/// ends (up to alignment slack) at an inaccessible page, so that an out-of-bounds *read* faults
+/// too; freed blocks are poisoned and quarantined like the others, their mappings are recycled.  Used for the scopes
+/// with an odd id (every other test case); the others keep the red-zone / poison scheme, which
+/// also sees small overruns into the alignment slack and writes after free without a fault.
+const GUARD: usize = 1 << 62;
+const PAGE: usize = 4096;
+const GUARD_MAX: usize = 8 << 20;
+
+#[inline]
+fn round_up(n: usize, a: usize) -> usize {
+    n.div_ceil(a) * a
+}
+
+/// (offset of the user block in the mapping, length of the accessible part)
+#[inline]
+fn guard_geometry(size: usize, align: usize) -> (usize, usize) {
+    let a = align.max(16);
+    let body = round_up(size.max(1), a);
+    let data = round_up(pad_for(a) + body, PAGE);
+    (data - body, data)
 }
 
 #[inline]
@@ -262,6 +373,11 @@ impl State {
         if !ok {
             self.flag(q.scope, F_WRITE_AFTER_FREE, q.user, q.size);
         }
+        if q.align & GUARD != 0 {
+            let (off, data) = guard_geometry(q.size, q.align & !GUARD);
+            self.guard_unmap((q.user - off) as *mut u8, data);
+            return;
+        }
         let pad = pad_for(q.align);
         System.dealloc(
             (q.user - pad) as *mut u8,
@@ -329,6 +445,27 @@ unsafe impl GlobalAlloc for Monitor {
         };
         let align = layout.align();
         let size = layout.size();
+        let scope = current_scope();
+        if use_guard(scope) && size <= GUARD_MAX && align <= PAGE {
+            let (off, data) = guard_geometry(size, align);
+            let base = st.guard_map(data);
+            if !base.is_null() {
+                let user = base.add(off);
+                if st.insert(Ent { ptr: user as usize, size, scope, align: align | GUARD }) {
+                    // everything accessible around the user block is red zone
+                    std::ptr::write_bytes(base, RZ_BYTE, off);
+                    std::ptr::write_bytes(user.add(size), RZ_BYTE, data - off - size);
+                    if let Some(sl) = st.slot_of(scope) {
+                        sl.live.fetch_add(1, Relaxed);
+                        sl.allocs.fetch_add(1, Relaxed);
+                    }
+                    return user;
+                }
+                OVERFLOW.store(true, Relaxed);
+                st.guard_unmap(base, data);
+            }
+            // fall through to the red-zone scheme
+        }
         let pad = pad_for(align);
         let Some(total) = pad.checked_add(size).and_then(|x| x.checked_add(RZ)) else {
             return std::ptr::null_mut();
@@ -338,7 +475,6 @@ unsafe impl GlobalAlloc for Monitor {
             return base;
         }
         let user = base.add(pad);
-        let scope = current_scope();
         if !st.insert(Ent { ptr: user as usize, size, scope, align }) {
             // table full: give the block back and serve untracked
             OVERFLOW.store(true, Relaxed);
@@ -362,6 +498,27 @@ unsafe impl GlobalAlloc for Monitor {
             return System.dealloc(ptr, layout);
         };
         match st.remove(ptr as usize) {
+            Some(e) if e.align & GUARD != 0 => {
+                let align = e.align & !GUARD;
+                if e.size != layout.size() || align != layout.align() {
+                    st.flag(e.scope, F_SIZE_MISMATCH, ptr as usize, layout.size());
+                }
+                let (off, data) = guard_geometry(e.size, align);
+                let base = ptr.sub(off);
+                if (0..off.min(4 * RZ)).any(|k| *ptr.sub(k + 1) != RZ_BYTE) {
+                    st.flag(e.scope, F_REDZONE_BEFORE, ptr as usize, e.size);
+                }
+                if (e.size..data - off).any(|k| *ptr.add(k) != RZ_BYTE) {
+                    st.flag(e.scope, F_REDZONE_AFTER, ptr as usize, e.size);
+                }
+                if let Some(sl) = st.slot_of(e.scope) {
+                    sl.live.fetch_sub(1, Relaxed);
+                    sl.frees.fetch_add(1, Relaxed);
+                }
+                let _ = (base, data);
+                std::ptr::write_bytes(ptr, POISON, e.size);
+                st.quarantine(QEnt { user: ptr as usize, size: e.size, align: e.align, scope: e.scope });
+            },
             Some(e) => {
                 if e.size != layout.size() || e.align != layout.align() {
                     st.flag(e.scope, F_SIZE_MISMATCH, ptr as usize, layout.size());
